@@ -469,6 +469,29 @@ def scenarios(ctx, workdir):
     serve_check(ctx, env, d, 'scenario-1')
     ctx.nontriv(('scenario', 1))
     env.close()
+    # S2: the same file name uploaded into two streams, then again into the first (media-file names are unique across streams:
+    # the newer upload replaces the older row); every step answers below 500 and leaves a consistent store
+    env = AppEnv(os.path.join(workdir, 'scenario2'), streams=(), copy_media=True)
+    logging.disable(logging.CRITICAL)
+    d = Driver(ctx, env)
+    ids = []
+    for dname in ('alpha', 'beta'):
+        r = d.add_stream(dname, dname.title())
+        ids.append((r.get_json(silent=True) or {}).get('id'))
+    steps = [(ids[0], 'clip_v', 'v'), (ids[1], 'clip_v', 'v'), (ids[0], 'clip_a', 'a'), (ids[1], 'clip_a', 'a'), (ids[0], 'clip_v', 'v'),
+             (ids[0], 'clip_v', 'v')]
+    for i, (spk, name, kind) in enumerate(steps):
+        r = d.upload(spk, name, kind)
+        ctx.count('http:scenario')
+        if r.status_code >= 500:
+            ctx.violation('scenario 2, step %d: %s' % (i + 1, d.log[-1]), {'history': list(d.log)})
+        pk = (r.get_json(silent=True) or {}).get('pk')
+        if pk:
+            d.index(pk)
+        oracle(ctx, d.state(), 'scenario 2 step %d (%s)' % (i + 1, d.log[-1]), {'history': list(d.log)})
+    serve_check(ctx, env, d, 'scenario-2')
+    ctx.nontriv(('scenario', 2))
+    env.close()
 
 
 def run(ctx):
